@@ -111,7 +111,7 @@ def build_one(job):
         fh.write("".join('#include "include/%s"\n' % h for h in hdrs))
     try:
         p = subprocess.run(["g++", "-std=c++17", "-fsyntax-only", "-w", "-fmax-errors=5", "-I.", "-Iinclude", "hdr.cpp"], cwd=d,
-                           capture_output=True, text=True, timeout=300)
+                           capture_output=True, text=True, timeout=1800)
         return {"target": "cpp", "build": "ok" if p.returncode == 0 else "error", "build_log": p.stderr[-4000:], "tests": []}
     except Exception as e:
         return {"runner_error": "%s: %s" % (type(e).__name__, str(e)[:200])}
